@@ -291,7 +291,7 @@ def solve_affine_loop(spec, xvals):
     return [rhs[i] / M[i][i] for i in range(n)]
 
 
-def field_input_system(rng, name='fld', field_norm=None):
+def field_input_system(rng, name='fld', field_norm=None, field_first=False):
     """one component with a scalar input and a FIELD-QUANTITY input (SVD-compressed, 2 latent coefficients) -> scalar output.
     The construction uses its own deterministic data (no global random state)."""
     from amisc import Component, System, Variable
@@ -301,14 +301,15 @@ def field_input_system(rng, name='fld', field_norm=None):
     a = rs.rand(15); b = 1.0 + rs.rand(15)
     data = a[:, None] * np.sin(grid) + b[:, None] * np.cos(grid)       # (samples, dof)
     p = Variable('p', compression=SVD(rank=2, data_matrix=data.T, coords=grid), norm=field_norm)
-    d = Variable('d', distribution='U(0, 1)')
+    # field_first: the field quantity is listed BEFORE the scalar, which then has a plain domain (no density that would mask a misplaced point)
+    d = Variable('d', domain=(0.2, 0.8)) if field_first else Variable('d', distribution='U(0, 1)')
     amp = Variable('amp', domain=(-20.0, 20.0))
 
     def model(inputs, p_coords=None):
         dd = np.atleast_1d(np.asarray(inputs['d'], dtype=float))
         pf = np.atleast_1d(np.asarray(inputs['p'], dtype=float))
         return {'amp': dd * np.mean(pf, axis=-1) + 0.5 * dd ** 2}
-    comp = Component(model, [d, p], [amp], name='fq', data_fidelity=(2, 2), vectorized=True)
+    comp = Component(model, [p, d] if field_first else [d, p], [amp], name='fq', data_fidelity=(2, 2), vectorized=True)
     return System(comp, name=name), None
 
 
